@@ -52,7 +52,10 @@ HexForms(n) ==
   LET k == IF n >= 4 THEN n \div 4 ELSE 1 IN
   {HexPat(k, FALSE), HexPat(k, TRUE), Rep("f", k), Rep("0", k), <<"_">>, HexPat(k, FALSE) \o <<"_">>, <<"_">> \o HexPat(k, TRUE),
    HexPat(k + 1, FALSE), <<"0">> \o HexPat(k, FALSE), Rep("F", 2 * k)}
-  \cup (IF k > 1 THEN {HexPat(k - 1, FALSE), <<Head(HexPat(k, TRUE)), "_">> \o Tail(HexPat(k, TRUE))} ELSE {})
+  \cup (IF k > 1 THEN {HexPat(k - 1, FALSE), <<Head(HexPat(k, TRUE)), "_">> \o Tail(HexPat(k, TRUE)),
+                       \* hexadecimal digits that look like a radix prefix: 0x0b.., 0x0B.., 0x0x is not a digit string
+                       <<"0", "b">> \o SubSeq(HexPat(k, FALSE), 3, k), <<"0", "B">> \o SubSeq(HexPat(k, TRUE), 3, k),
+                       <<"b", "0">> \o SubSeq(HexPat(k, FALSE), 3, k)} ELSE {})
 
 \* byte arrays
 ByteHex(m) == [i \in 1..(2 * m) |-> HexChars[((7 * i + 3) % 16) + 1]]
